@@ -153,11 +153,12 @@ theorem RelT.replace {T : Int} {m m' : State} {j j' : Mon} (h : RelT T m j)
     (hev : j'.evented = j.evented) (hrate : j'.rate = j.rate) (hcur : j'.cur = j.cur)
     (hlc : j'.lastChange = j.lastChange) (hlt : j'.lastTrig = j.lastTrig)
     (hmnow : m'.now = m.now) (hmvars : m'.vars = m.vars)
-    (hsubs : SubsOk m' j'.subs) (hvals : ValsOk m' j'.subs) : RelT T m' j' := by
+    (hsubs : SubsOk m' j'.subs) (hvals : ValsOk m' j'.subs)
+    (hpc : j'.pendingChg = j.pendingChg := by rfl) : RelT T m' j' := by
   refine ⟨hok, htgt.trans h.tgt, by rw [hnow, hmnow]; exact h.now, haw, by rw [hev, hmvars]; exact h.ev,
     by rw [hrate, hmvars]; exact h.rate, by rw [hcur, hmvars]; exact h.cur, by rw [hlc, hmvars]; exact h.lcLen,
     ?_, hsubs, hvals, by rw [hmnow]; exact h.nowT⟩
-  rw [hmvars, hmnow, hlc, hlt]; exact h.vars
+  rw [hmvars, hmnow, hlc, hlt, hpc]; exact h.vars
 
 theorem done_ok (m : State) (j : Mon) (k : Nat) (h : Rel m j) :
     Rel (deliveryDone m k).1 ((j.beginOp (.done k)).obsRun (deliveryDone m k).2) := by
@@ -396,12 +397,17 @@ theorem subscribe_new_ok (m : State) (j : Mon) (c : Char) (cs : Str) (to : Optio
       rcases hurl with e | e
       · rw [e]; rfl
       · rw [e]; simp
-    simp only [notifyOf, Mon.onObs, hget]
+    have hlapse : ∀ (js : List SubMon), ({ j with subs := js, awaiting := none } : Mon).lapse m.now
+        = { j with subs := js, awaiting := none } := by
+      intro js
+      unfold Mon.lapse
+      rw [if_neg (by show ¬ j.now < m.now; rw [hn]; exact Int.lt_irrefl _)]
+    simp only [notifyOf, Mon.onObs, hlapse, Mon.notifyAt, hget]
     have hE : ∀ (a b : Mon), a.ok = b.ok → a.now = b.now → a.target = b.target → a.evented = b.evented → a.rate = b.rate →
         a.cur = b.cur → a.lastChange = b.lastChange → a.lastTrig = b.lastTrig → a.subs = b.subs → a.awaiting = b.awaiting →
-        a = b := by
-      intro a b; cases a; cases b; simp only; intro h1 h2 h3 h4 h5 h6 h7 h8 h9 h10
-      subst h1 h2 h3 h4 h5 h6 h7 h8 h9 h10; rfl
+        a.pendingChg = b.pendingChg → a = b := by
+      intro a b; cases a; cases b; simp only; intro h1 h2 h3 h4 h5 h6 h7 h8 h9 h10 h11
+      subst h1 h2 h3 h4 h5 h6 h7 h8 h9 h10 h11; rfl
     apply hE
     · show (j.ok && timeOk _ m.now && _) = j.ok
       have htime : ∀ (js : List SubMon), timeOk { j with subs := js, awaiting := none } m.now = true := by
@@ -423,6 +429,7 @@ theorem subscribe_new_ok (m : State) (j : Mon) (c : Char) (cs : Str) (to : Optio
       congr 1
       simp [entry0, entry1, hs0key]
     · exact h.awaiting.symm
+    · rfl
   rw [hmon]
   have hpush := SubsOk.push h.subs s0.bump (entry1 (some (c :: cs)) (j.now + timeout * usPerS) j.cur) hs0sid rfl
     hurl
